@@ -29,7 +29,7 @@ def registry():
     import checks_core as cc
     reg = {
         'C01': (cc.check_C01, 'apply/ite/negation results vs truth-table oracle; exhaustive pairs over 256 functions of 3 variables, sampled ITE triples, random histories with warm cache / GC / swaps; distinct = distinct (kind, alias, order) enumerations and histories'),
-        'C02': (cc.check_C02, 'every function of 3 variables by 5 routes x orders, canonicity + structure oracle after every step of random interleavings; distinct = route sets and histories'),
+        'C02': (cc.check_C02, 'every function of 3 variables by 8 routes (node by node, connectives, rename, cofactor, two compositions, parsing a DNF formula, copy) x orders, canonicity + structure oracle after every step of random interleavings; distinct = route sets and histories', 'ddvparse'),
         'C03': (cc.check_C03, 'all 256 functions x 8 subsets x 2 quantifiers x orders x fresh/used managers x 4 call forms'),
         'C04': (cc.check_C04, 'all 256 functions x all partial assignments, renaming maps (all 27 in thorough), sampled replacement tuples, orders'),
         'C06': (cc.check_C06, 'all op sequences of length 4 (+ sample of length 5) over a 9-letter alphabet on 2 variables, stale-cache templates, long histories; ledger + reachability oracle'),
@@ -40,7 +40,7 @@ def registry():
     }
     import checks_more as cm
     reg.update({
-        'C09': (cm.check_C09, 'each decorated operation on random scenarios with the reordering request fired at k = 1..K (until it no longer fires), compared with the reordering-disabled run; natural triggering at lowered thresholds in histories'),
+        'C09': (cm.check_C09, 'each decorated operation (incl. add_expr) on random scenarios with the reordering request fired at k = 1..K (until it no longer fires), compared with the reordering-disabled run; natural triggering at lowered thresholds in histories', 'ddvparse'),
         'C11': (cm.check_C11, 'all 256 functions of 3 variables x source/target order pairs, targets with extra variables and pre-existing nodes; dd._copy functions on dd.autoref'),
         'C13': (cm.check_C13, 'exhaustive one primed/unprimed pair (16x16 functions, both orders, all qvars, both quantifiers, names/levels); sampled 2-3 pairs, adjacent and (image) arbitrary orders'),
         'C18': (cm.check_C18, 'all 256 functions, both signs: to_nx / DOT text re-read and evaluated, descendants, len, succ; Function.low/high/var/negated traversal'),
@@ -107,6 +107,8 @@ def run_shard(prop, fn, seed, k, n):
     import json as _json
     ctx = lib.Ctx(prop, 'thorough', seed * 1009 + k)
     ctx.shard, ctx.nshards = k, n
+    reg = registry()
+    ctx.driver = reg[prop][2] if len(reg[prop]) > 2 else None
     ctx.budget_s = int(os.environ.get('VERIF_SHARD_S', '420'))
     rc = 0
     rounds = 0
@@ -190,12 +192,14 @@ def main():
         if rc is not None:
             return rc
     fn, rule = reg[args.prop][:2]
+    driver = reg[args.prop][2] if len(reg[args.prop]) > 2 else None
     shard = os.environ.get('VERIF_SHARD')
     if shard is not None:
         return run_shard(args.prop, fn, seed, int(shard), int(os.environ.get('VERIF_SHARDS', '1')))
     ctx = lib.Ctx(args.prop, tier, seed)
+    ctx.driver = driver
     try:
-        lean = lib.lean_side(args.prop, thorough=(tier == 'thorough'))
+        lean = lib.lean_side(args.prop, thorough=(tier == 'thorough'), driver=driver)
     except Exception:  # noqa: BLE001
         traceback.print_exc()
         return 2
@@ -216,6 +220,7 @@ def main():
     if (not lean['ok'] or ctx.disagreements) and not _unknown_violations(ctx):
         search_s = int(os.environ.get('VERIF_SEARCH_S', '90'))
         ctx2 = lib.Ctx(args.prop, 'thorough', seed + 7919)
+        ctx2.driver = driver
         ctx2.budget_s = search_s
         ctx2.no_model = True
         try:
